@@ -227,7 +227,13 @@ class Exec:
         if isinstance(a, Sc) and isinstance(b, Sc) and a.kind == "fp" and b.kind == "fp":
             arith = {"Add": "fp.add", "Sub": "fp.sub", "Mul": "fp.mul", "Div": "fp.div"}
             if op in arith:
-                return Sc("fp", f"({arith[op]} {RNE} {a.term} {b.term})")
+                x, y = a.term, b.term
+                if op in ("Add", "Mul"):
+                    # commutative in SMT-LIB (single NaN): operands in canonical order, so that an
+                    # implementation that adds/multiplies in the other order yields the same term
+                    # (z3 4.8.12 does not prove fp.add commutativity within its time limit)
+                    x, y = sorted((x, y))
+                return Sc("fp", f"({arith[op]} {RNE} {x} {y})")
             cmp_ = {"Eq": "fp.eq", "Lt": "fp.lt", "Le": "fp.leq", "Gt": "fp.gt", "Ge": "fp.geq"}
             if op in cmp_:
                 return Sc("bool", f"({cmp_[op]} {a.term} {b.term})")
@@ -255,7 +261,10 @@ class Exec:
         simple = {"Add": "bvadd", "Sub": "bvsub", "Mul": "bvmul", "BitAnd": "bvand", "BitOr": "bvor", "BitXor": "bvxor",
                   "AddUnchecked": "bvadd", "SubUnchecked": "bvsub", "MulUnchecked": "bvmul"}
         if op in simple:
-            return Sc("bv", f"({simple[op]} {a.term} {b.term})", w, s)
+            x, y = a.term, b.term
+            if not op.startswith("Sub"):
+                x, y = sorted((x, y))       # commutative: canonical operand order (see the fp case)
+            return Sc("bv", f"({simple[op]} {x} {y})", w, s)
         if op == "Div":
             return Sc("bv", f"({'bvsdiv' if s else 'bvudiv'} {a.term} {b.term})", w, s)
         if op == "Rem":
@@ -413,6 +422,18 @@ class Exec:
         if m and (m.group(1) in INT_TYPES or m.group(1) == "f64"):
             r = self.binop(m.group(2).capitalize(), deref(a[0]), deref(a[1]))
             return [(r, [])]
+        m = re.fullmatch(r"<(\w+) as (?:std::convert::)?From<(\w+)>>::from", path)
+        if m and isinstance(a[0], Sc):
+            dst, src = m.group(1), m.group(2)
+            if dst in INT_TYPES and src in INT_TYPES:
+                return [(self.cast(a[0], dst, "IntToInt"), [])]
+            if dst == "f64" and src in INT_TYPES:
+                return [(self.cast(a[0], "f64", "IntToFloat"), [])]
+        m = re.fullmatch(r"<(\w+) as (?:std::ops::)?(Add|Sub|Mul|Div|Neg|BitAnd|BitOr|BitXor)(?:<\w+>)?>::(\w+)", path)
+        if m and m.group(1) == "f64" and all(isinstance(x, Sc) for x in a):
+            if m.group(2) == "Neg":
+                return [(Sc("fp", f"(fp.neg {a[0].term})"), [])]
+            return [(self.binop(m.group(2), a[0], a[1]), [])]
         if re.search(r"Arguments::<'_>::(from_str|new_const|new)", path) or path.endswith("Arguments::from_str"):
             return [(Opaque("fmt::Arguments"), [])]
         raise Unsupported("call " + path)
